@@ -21,6 +21,7 @@ var registry = []*HarnessSpec{
 	{Prop: "C14", Name: "zzH13b", Pkg: pkgSystem, Tier: "quick", Params: map[string]int{"messages": 2}, Bounds: "address flags source (shared with C13)"},
 	{Prop: "C15", Name: "zzH15b", Pkg: pkgSystem, Tier: "quick", Bounds: "2 interfaces with symbolic flags, one symbolic route message per queried interface"},
 	{Prop: "C04", Name: "zzH04sched", Pkg: pkgCorerad, Tier: "quick", MonoTime: true, NoNative: true, Bounds: "one request (all-nodes or an arbitrary unicast source) queued by the real scheduler; forwarding symbolic when the RA is queued and again when it is sent"},
+	{Prop: "C04", Name: "zzH04handle2", Pkg: pkgCorerad, Tier: "quick", Bounds: "two consistency checks back to back at one clock reading, forwarding symbolic at each"},
 	{Prop: "C04", Name: "zzH04c", Pkg: pkgSystem, Tier: "quick", Bounds: "sysctl file content of 0..2 arbitrary bytes or a read error; forwarding and autoconf keys; write of either value"},
 	{Prop: "C11", Name: "zzH04c", Pkg: pkgSystem, Tier: "quick", Bounds: "the kernel autoconfiguration accessors behind system.State: the getter reads this interface's autoconf sysctl (true iff \"1\\n\"), the setter writes it (0..2 arbitrary content bytes or a read error)"},
 	{Prop: "C10", Name: "zzH10g", Pkg: pkgSystem, Tier: "quick", Bounds: "lookupInterface over the four outcomes of net.InterfaceByName (found; package net's no-such-interface OpError; another OpError; opaque error)"},
@@ -31,6 +32,7 @@ var registry = []*HarnessSpec{
 	{Prop: "C17", Name: "zzH17e", Pkg: pkgCorerad, Extra: []string{pkgConfig}, Tier: "quick", Unwind: 600, Bounds: "scrape of one advertising interface carrying the stanzas of one kind only (9 kinds incl. deprecated explicit prefix, deprecated route, wildcards), prepared or never prepared, real parser, symbolic lifetimes and clock"},
 	{Prop: "C17", Name: "zzH17f", Pkg: pkgCrhttp, Extra: []string{pkgConfig}, Tier: "quick", Unwind: 200, Bounds: "debug-API request for one never-initialised advertising interface carrying the stanzas of one kind only (9 kinds), real parser, symbolic lifetimes"},
 	{Prop: "C17", Name: "zzH17g", Pkg: pkgCrhttp, Tier: "quick", Bounds: "three successive debug-API requests for one static advertising interface: before initialisation, after initialisation, after re-initialisation with another hardware address; forwarding symbolic at each request"},
+	{Prop: "C17", Name: "zzH17h", Pkg: pkgCorerad, Extra: []string{pkgConfig}, Tier: "quick", Unwind: 600, Bounds: "scrape of two advertising interfaces that both fail (never initialised, or the system state failing for every interface)"},
 	{Prop: "C17", Name: "zzH17c", Pkg: pkgCrhttp, Tier: "quick", Bounds: "all four (prometheus, pprof) combinations"},
 	{Prop: "C17", Name: "zzH17a", Pkg: pkgCorerad, Tier: "quick", Unwind: 600, Bounds: "three interfaces (advertising with one stanza of every kind parsed by the real parser, monitoring, neither) in 3 orders; plugins prepared or never prepared; forwarding/autoconf per interface symbolic; lifetimes symbolic"},
 	{Prop: "C04", Name: "zzH17a", Pkg: pkgCorerad, Tier: "quick", Unwind: 600, Bounds: "metrics-scrape path: forwarding read per scrape, misconfiguration gauge iff not forwarding with a non-zero configured lifetime"},
@@ -76,6 +78,8 @@ var registry = []*HarnessSpec{
 	{Prop: "C02", Name: "zzH02iface", Pkg: pkgConfig, Tier: "quick", Bounds: "name set/unset x 0..2 names x monitor x advertise x garbage advertising keys"},
 	{Prop: "C02", Name: "zzH02compose", Pkg: pkgConfig, Tier: "quick", Bounds: "one whole advertising interface with two stanzas of every list kind, concrete valid values; at most one of 19 components corrupted (the second stanza of a list)"},
 	{Prop: "C03", Name: "zzH12wire", Pkg: pkgCorerad, Extra: []string{pkgConfig}, Tier: "quick", Bounds: "framing: RAs with one to three options of different kinds (RDNSS + DNSSL; MTU + captive portal + PREF64) through ndp.MarshalMessage / ndp.ParseMessage"},
+	{Prop: "C02", Name: "zzH02strings", Pkg: pkgConfig, Tier: "quick", Bounds: "12 concrete prefix texts x {pref64, prefix, route} through the real netip parsers"},
+	{Prop: "C03", Name: "zzH02strings", Pkg: pkgConfig, Tier: "quick", Bounds: "12 concrete prefix texts: nothing with host bits, without a length, IPv4 or zoned reaches an RA"},
 	{Prop: "C02", Name: "zzH02parse", Pkg: pkgConfig, Tier: "quick", Bounds: "0..3 interface groups of 1-2 names from a pool of three; debug address set/unset, resolvable or not; decoder failing or not"},
 	{Prop: "C02", Name: "zzH02pref64", Pkg: pkgConfig, Tier: "quick", Bounds: "one pref64 stanza: prefix absent / empty / unparsable / any IPv4 or IPv6 prefix of any length"},
 	{Prop: "C02", Name: "zzH02dnssl", Pkg: pkgConfig, Tier: "quick", Bounds: "one dnssl stanza: lifetime of every shape, 0..3 names from three tokens"},
